@@ -16,7 +16,8 @@ import Hive.Base.Proto
   (all micro-step interleavings).
 * `wm N v kind` / `w T op | obs…` — the same for the Counter/Stack monitor against `Hive.SyncMutex.Wait.sys`;
   `wg A B | obs…` is the arrival of `SignalShutdown` (B) while `PopOrWait` (A) is inside its wait-condition
-  callback.
+  callback; `wq T m U thr | obs…` is `Push`×m immediately followed by `WaitIsEmpty` by T, racing with
+  `WaitSizeIsBelow(thr)` by U and with the consumers parked in `PopOrWait`.
 * `tr ev…` — exclusion predicate (`Excl`, the one `C17_exclusion`/`C17_dag_exclusion` are about) evaluated
   on a grant/release trace recorded under stress.
 * `seq sm|dag op…` — one goroutine, sequential calls: `ok`/`panic` per call (unlock-of-unheld matrix).
@@ -190,6 +191,20 @@ def wGapStart (c : Cfg Wait.Mon Wait.WTh) (a b : Nat) : Option (Cfg Wait.Mon Wai
   let c3 ← stepThread c2 a (fun _ => true)                 -- takes the lock
   let c4 ← stepThread c3 a (fun t => t.pc == .critW)       -- empty stack, the callback says "wait"
   wArrive c4 b .shutdown
+
+/-- goroutine `i`, between calls, is given several calls to execute back to back -/
+def wArriveS (c : Cfg Wait.Mon Wait.WTh) (i : Nat) (ops : List Wait.WOp) : Option (Cfg Wait.Mon Wait.WTh) :=
+  match c.2[i]? with
+  | some t => if t.pc = .idle ∧ t.script = [] then some (c.1, c.2.set i { t with script := ops }) else none
+  | none => none
+
+/-- The push-then-wait family: goroutine `t` does `Push` × m immediately followed by `WaitIsEmpty`, while (optionally)
+goroutine `u` calls `WaitSizeIsBelow(thr)`; consumers parked in `PopOrWait` race with both. -/
+def wPushWaitStart (c : Cfg Wait.Mon Wait.WTh) (t m : Nat) (u : Option (Nat × Int)) : Option (Cfg Wait.Mon Wait.WTh) := do
+  let c1 ← wArriveS c t (List.replicate m (.add 1) ++ [.waitBelow 1])
+  match u with
+  | none => pure c1
+  | some (u, thr) => wArriveS c1 u [.waitBelow thr]
 
 /-- Generations are unbounded counters that do not matter for equality of futures once nobody is parked
 with an old one; keeping them in the key is sound (only less sharing). -/
@@ -406,6 +421,20 @@ def stepLine (st : St) (toks : List String) : St × String :=
       let (ok, ans) := answer wObs (" ".intercalate obs) (dedupBy wKey outs []) complete
       (.wm ok, ans)
     | _, _, _ => (st, "bad-op")
+  | "wq" :: t :: m :: u :: thr :: rest =>
+    let obs := (rest.dropWhile (· != "|")).drop 1
+    let second : Option (Option (Nat × Int)) :=
+      if u == "-" then some none else
+        match u.toNat?, thr.toInt? with
+        | some u, some thr => some (some (u, thr))
+        | _, _ => none
+    match st, t.toNat?, m.toNat?, second with
+    | .wm cs, some t, some m, some second =>
+      let starts := cs.filterMap (fun c => wPushWaitStart c t m second)
+      let (outs, complete) := quiescentFrom Wait.sys wKey starts
+      let (ok, ans) := answer wObs (" ".intercalate obs) (dedupBy wKey outs []) complete
+      (.wm ok, ans)
+    | _, _, _, _ => (st, "bad-op")
   | "tr" :: evs =>
     match evs.mapM parseEv with
     | some es =>
